@@ -6,6 +6,7 @@
   state at the last commit.
 -/
 import TT.Lemmas.RecvSim
+import TT.Lemmas.RecvRestore
 
 namespace TT
 
@@ -18,6 +19,56 @@ def endsCommitted : List HOp → Bool
     | some (.persist _) => true
     | _ => false
 
+theorem rr_runSpec_evOps_persisted (ss : SpecSys) (seg : List Event) :
+    (runSpec ss (evOps seg)).persisted = ss.persisted := by
+  induction seg generalizing ss with
+  | nil => rfl
+  | cons e seg ih =>
+    show (runSpec (ss.step (.ev e)) (evOps seg)).persisted = ss.persisted
+    rw [ih]
+    simp only [SpecSys.step]
+    split <;> rfl
+
+theorem rr_endsCommitted_cur (h : List HOp) (hc : endsCommitted h = true) :
+    (runSpec {} h).cur = (runSpec {} h).persisted := by
+  cases hl : h.getLast? with
+  | none =>
+    rw [List.getLast?_eq_none_iff] at hl
+    subst hl
+    rfl
+  | some op =>
+    have hne : h ≠ [] := by
+      intro e; subst e; simp at hl
+    obtain ⟨ys, hsplit⟩ := List.getLast?_eq_some_iff.1 hl
+    cases op with
+    | persist m =>
+      rw [hsplit, rr_runSpec_append]
+      rfl
+    | ev e =>
+      exfalso
+      cases h with
+      | nil => exact hne rfl
+      | cons a t => simp [endsCommitted, hl] at hc
+    | discard =>
+      exfalso
+      cases h with
+      | nil => exact hne rfl
+      | cons a t => simp [endsCommitted, hl] at hc
+
+theorem rr_retry_spec (h : List HOp) (seg : List Event) (hc : endsCommitted h = true) :
+    runSpec {} (h ++ evOps seg ++ [.discard]) = runSpec {} h := by
+  rw [rr_runSpec_append, rr_runSpec_append]
+  have hp := rr_runSpec_evOps_persisted (runSpec {} h) seg
+  have hcur := rr_endsCommitted_cur h hc
+  show SpecSys.step (runSpec (runSpec {} h) (evOps seg)) .discard = runSpec {} h
+  simp only [SpecSys.step, hp]
+  cases hss : runSpec {} h with
+  | mk c p =>
+    rw [hss] at hcur
+    simp only at hcur
+    subst hcur
+    rfl
+
 theorem C04_retry (w₀ : World) (h : List HOp) (seg : List Event) (m : PMode)
     (hc : endsCommitted h = true)
     (hno : noReannounceFrom {} (h ++ evOps seg ++ [.discard] ++ evOps seg ++ [.persist m]) = true) :
@@ -29,7 +80,52 @@ theorem C04_retry (w₀ : World) (h : List HOp) (seg : List Event) (m : PMode)
     -- same final persisted state
     lookupEq (runHistory (Sys.init w₀) withDiscard).lastPs (runHistory (Sys.init w₀) without).lastPs ∧
     lookupEq (runHistory (Sys.init w₀) withDiscard).lastPm (runHistory (Sys.init w₀) without).lastPm := by
-  sorry
+  intro withDiscard without
+  have hwd : withDiscard = (h ++ evOps seg ++ [.discard]) ++ (evOps seg ++ [.persist m]) := by
+    simp [withDiscard, List.append_assoc]
+  have hwo : without = h ++ (evOps seg ++ [.persist m]) := by
+    simp [without, List.append_assoc]
+  have hss := rr_retry_spec h seg hc
+  -- split the proviso
+  have hno' : noReannounceFrom {} withDiscard = true := hno
+  rw [hwd, rr_noReannounce_append, Bool.and_eq_true, hss] at hno'
+  obtain ⟨hnoA, hnoB⟩ := hno'
+  have hnoA' := hnoA
+  rw [rr_noReannounce_append, Bool.and_eq_true] at hnoA'
+  have hnoAB := hnoA'.1
+  rw [rr_noReannounce_append, Bool.and_eq_true] at hnoAB
+  have hnoH : noReannounceFrom {} h = true := hnoAB.1
+  have hnoWo : noReannounceFrom {} without = true := by
+    rw [hwo, rr_noReannounce_append, Bool.and_eq_true]
+    exact ⟨hnoH, hnoB⟩
+  -- the bookkeeping of both runs coincides
+  have hspec : runSpec {} withDiscard = runSpec {} without := by
+    rw [hwd, hwo, rr_runSpec_append, hss, ← rr_runSpec_append]
+  -- invariants
+  have invA : Inv (runHistory (Sys.init w₀) (h ++ evOps seg ++ [.discard])) (runSpec {} h) := by
+    have := (Inv.init w₀).run _ hnoA
+    rwa [hss] at this
+  have invH : Inv (runHistory (Sys.init w₀) h) (runSpec {} h) := (Inv.init w₀).run _ hnoH
+  refine ⟨?_, ?_, ?_⟩
+  · have e1 : results (Sys.init w₀) withDiscard
+        = results (Sys.init w₀) (h ++ evOps seg)
+          ++ results (runHistory (Sys.init w₀) (h ++ evOps seg ++ [.discard])) (evOps seg ++ [.persist m]) := by
+      rw [hwd, rr_results_append, rr_results_append (Sys.init w₀) (h ++ evOps seg) [.discard]]
+      simp [results]
+    have e2 : results (Sys.init w₀) without
+        = results (Sys.init w₀) h
+          ++ results (runHistory (Sys.init w₀) h) (evOps seg ++ [.persist m]) := by
+      rw [hwo, rr_results_append]
+    rw [e1, e2, List.drop_left, List.drop_left, rr_results_spec invA _ hnoB,
+      rr_results_spec invH _ hnoB]
+  · have a := (recv_state_is_spec w₀ withDiscard hno).2.2.2.2.1
+    have b := (recv_state_is_spec w₀ without hnoWo).2.2.2.2.1
+    intro k
+    rw [a k, b k, hspec]
+  · have a := (recv_state_is_spec w₀ withDiscard hno).2.2.2.2.2
+    have b := (recv_state_is_spec w₀ without hnoWo).2.2.2.2.2
+    intro k
+    rw [a k, b k, hspec]
 
 /-- Non-vacuity (with a rejected event inside the retried segment). -/
 example :
